@@ -202,6 +202,15 @@ def c01(tier):
     # capture hungry games from roots where home rooks can be captured while the right is held
     rk = write_roots_named(ck, ["roots_rookcap.fen"], "rookcap.fen")
     shards += trace(ck, exe, "games", "k", {"roots": rk, "games": 400 if full else 64, "maxply": 12, "shards": 16, "mv-pct": 0, "keys": 0, "repr": 0, "policy": 4})
+    # boundary material and forced replies: ten pieces of one kind next to a piece of the next kind (the piece lists are walked by the
+    # king-safety part of the generator), and positions in check by a slider where a double pawn push interposes
+    ten = write_roots_named(ck, ["roots_tenofakind.fen"], "ten.fen")
+    shards += trace(ck, exe, "games", "n", {"roots": ten, "games": 24 if full else 12, "maxply": 6, "shards": 4, "mv-pct": 0, "keys": 0, "repr": 0, "roots-seq": 1})
+    dpf = os.path.join(ck.work, "dpush.txt")
+    core.run_vh(exe, ["nearmate-pool", "--out", dpf, "--refuted", 0, "--zugzwang", 0, "--dpush", 600 if full else 120, "--seed", core.seed() + 11], timeout=600)
+    dproots = os.path.join(ck.work, "dpush.fen")
+    open(dproots, "w").write("".join(l.split("|")[0] + "\n" for l in open(dpf) if l.split("|")[5].strip() == "nm-dpush"))
+    shards += trace(ck, exe, "games", "d", {"roots": dproots, "games": 600 if full else 120, "maxply": 1, "shards": 8, "mv-pct": 0, "keys": 0, "repr": 0, "roots-seq": 1})
     viols, cnt = validate(ck, shards)
     need(cnt, ["legal_cmp", "n_ep", "n_check", "n_castle"], "C01 traces")
     take(ck, "C01", viols, others)
